@@ -52,3 +52,169 @@ def close(a, b, tol=1e-9):
 def script(model, body):
     return (PRELUDE + "\nimport json\nMODEL = json.loads(%r)\n" % json.dumps(model, default=str)
             + body)
+
+
+UFUNC_RUNTIME = r'''
+import numpy as np
+import warnings
+warnings.filterwarnings("ignore")
+
+def dtype_of(model, label):
+    kind = model.get(label + ".kind", "f"); size = int(model.get(label + ".itemsize", 8))
+    if kind == "b":
+        return np.dtype(bool)
+    try:
+        return np.dtype(kind + str(size))
+    except TypeError:
+        return np.dtype("f8")
+
+def make_data(model, label):
+    dt = dtype_of(model, label)
+    x = num(model.get(label + ".elem", 1))
+    if dt.kind in "iu":
+        x = int(round(x))
+    if dt.kind == "b":
+        x = bool(x)
+    is0d = str(model.get(label + ".is0d", "False")) == "True"
+    size = int(model.get(label + ".size", 2))
+    if is0d:
+        return np.array(x, dtype=dt)
+    return np.full((max(size, 1),), x, dtype=dt)
+
+def named_unit(reg, name, model, label):
+    """unit with the contract's fixed NAME and the model's scale / zero point"""
+    scale = num(model[label + ".scale"]); offset = num(model[label + ".offset"])
+    dim = dim_from(model, label)
+    if name in ("mK", "mdegC"):
+        base = name[1:]
+        if base not in reg.lut:
+            reg.add(base, scale / 1e-3, dim, offset=offset, prefixable=True)
+        return Unit(name, registry=reg), 1e-3
+    if name not in reg.lut:
+        reg.add(name, scale, dim, offset=offset)
+    return Unit(name, registry=reg), None
+
+def si(x, u, pv):
+    off = u.base_offset / pv if pv else u.base_offset
+    return (np.asarray(x, dtype=complex if np.iscomplexobj(x) else float) - off) * u.base_value
+
+def snapshot(o):
+    if isinstance(o, np.ndarray):
+        return (o.view(np.ndarray).tobytes(), o.dtype, getattr(o, "units", None))
+    return None
+
+def unchanged(o, snap):
+    if snap is None:
+        return True
+    return (o.view(np.ndarray).tobytes() == snap[0] and o.dtype == snap[1]
+            and (snap[2] is None or o.units == snap[2]))
+'''
+
+
+def ufunc_script(model, ufunc, config, kind, sign=1, names=None, method="__call__"):
+    head = script(model, UFUNC_RUNTIME)
+    body = r'''
+UFUNC = %(ufunc)r; CONFIG = %(config)r; KIND = %(kind)r; SIGN = %(sign)r; NAMES = %(names)r
+reg = UnitRegistry(add_default_symbols=False)
+ops = []; units = []; pvs = []
+for n, k in enumerate(CONFIG):
+    lab = "i%%d" %% n
+    if k in ("q", "Q"):
+        if NAMES:
+            u, pv = named_unit(reg, NAMES[n], MODEL, "u%%d" %% n)
+        else:
+            MODEL.setdefault("u%%d.prefix" %% n, "")
+            u, pv = build_unit(reg, "x%%d" %% n, MODEL, "u%%d" %% n)
+        ops.append(unyt.unyt_array(make_data(MODEL, lab), u)); units.append(u); pvs.append(pv)
+    elif k == "n":
+        ops.append(make_data(MODEL, lab)); units.append(None); pvs.append(None)
+    elif k == "s":
+        ops.append(num(MODEL.get(lab, 1))); units.append(None); pvs.append(None)
+    else:
+        ops.append(0); units.append(None); pvs.append(None)
+snaps = [snapshot(o) for o in ops]
+fn = getattr(np, UFUNC)
+print("call: np.%%s(%%r, %%r)" %% (UFUNC, ops[0], ops[1]))
+try:
+    res = fn(*ops); raised = None
+except Exception as e:
+    res = None; raised = e
+print("->", repr(res) if raised is None else "raised %%s: %%s" %% (type(raised).__name__, str(raised)[:120]))
+bad = []
+for n, (o, s) in enumerate(zip(ops, snaps)):
+    if not unchanged(o, s):
+        bad.append("operand %%d was modified" %% n)
+def dimof(n):
+    return units[n].dimensions if units[n] is not None else D.dimensionless
+def bare_zero(n):
+    return units[n] is None and not np.any(np.asarray(ops[n]) != 0)
+def SI(n):
+    if units[n] is None:
+        return np.asarray(ops[n], dtype=float)
+    return si(ops[n].view(np.ndarray), units[n], pvs[n])
+mismatch = dimof(0) != dimof(1) and not bare_zero(0) and not bare_zero(1)
+tol = 1e-9
+def close(x, y):
+    x = np.asarray(x); y = np.asarray(y)
+    return np.all(np.abs(x - y) <= tol * np.maximum(1.0, np.maximum(np.abs(x), np.abs(y))))
+if raised is None:
+    if KIND in ("additive", "homog") and mismatch:
+        bad.append("operands of different dimension were combined")
+    if KIND == "compare":
+        either_dimless = dimof(0) == D.dimensionless or dimof(1) == D.dimensionless
+        if mismatch and not either_dimless:
+            if UFUNC == "equal" and np.any(res):
+                bad.append("== of different dimensions is not all-False")
+            elif UFUNC == "not_equal" and not np.all(res):
+                bad.append("!= of different dimensions is not all-True")
+            elif UFUNC not in ("equal", "not_equal"):
+                bad.append("ordering comparison of different dimensions returned")
+        elif not mismatch and not bare_zero(0) and not bare_zero(1):
+            want = fn(SI(0).real, SI(1).real)
+            if np.any(np.asarray(res) != want) and not close(SI(0), SI(1)):
+                bad.append("verdict %%r differs from the comparison of SI magnitudes %%r" %% (res, want))
+    if KIND in ("additive", "homog") and not mismatch and hasattr(res, "units"):
+        a, b = (0 if bare_zero(0) else SI(0)), (0 if bare_zero(1) else SI(1))
+        want = a + SIGN * b if KIND == "additive" else fn(np.real(a), np.real(b))
+        got = si(res.view(np.ndarray), res.units, None)
+        if not close(got, want):
+            bad.append("SI(result) = %%r, mathematics on SI magnitudes gives %%r" %% (got, want))
+    if KIND == "mult" and hasattr(res, "units"):
+        want = SI(0) * SI(1) if UFUNC == "multiply" else SI(0) / SI(1)
+        got = si(res.view(np.ndarray), res.units, None)
+        if np.all(np.isfinite(want)) and not close(got, want):
+            bad.append("SI(result) = %%r, mathematics on SI magnitudes gives %%r" %% (got, want))
+    if KIND == "temperature" and hasattr(res, "units"):
+        p = [u.base_offset != 0 for u in units]
+        K = [SI(0), SI(1)]
+        Dk = [ops[n].view(np.ndarray) * units[n].base_value for n in (0, 1)]
+        L = res.units; lp = L.base_offset != 0
+        pvL = 1e-3 if str(L.expr).startswith("m") and str(L.expr)[1:] in ("K", "degC") else None
+        KL = si(res.view(np.ndarray), L, pvL); DL = res.view(np.ndarray) * L.base_value
+        if SIGN == 1:
+            if p[0] and not p[1]: want, got, lab = K[0] + Dk[1], KL, True
+            elif p[1] and not p[0]: want, got, lab = Dk[0] + K[1], KL, True
+            elif not p[0] and not p[1]: want, got, lab = Dk[0] + Dk[1], DL, False
+            else: want = None
+        else:
+            if p[0] and not p[1]: want, got, lab = K[0] - Dk[1], KL, True
+            elif not p[0] and not p[1]: want, got, lab = Dk[0] - Dk[1], DL, False
+            elif p[0] and p[1]: want, got, lab = K[0] - K[1], DL, False
+            else: want = None
+        if want is not None:
+            if lab != lp:
+                bad.append("result labelled %%s: expected a %%s scale" %% (L, "point" if lab else "difference"))
+            elif not close(got, want):
+                bad.append("kelvin value of the result %%r, affine arithmetic gives %%r" %% (got, want))
+        if p[0] and p[1] and units[0] != units[1]:
+            bad.append("two different offset scales were combined")
+    if hasattr(res, "shape") and hasattr(res, "units"):
+        if res.shape == () and not isinstance(res, unyt.unyt_quantity):
+            bad.append("0-d result is not a unyt_quantity")
+        if res.size > 1 and isinstance(res, unyt.unyt_quantity):
+            bad.append("multi-element unyt_quantity")
+for b in bad:
+    print("VIOLATION reproduced:", b)
+sys.exit(1 if bad else 0)
+''' % {"ufunc": ufunc, "config": tuple(config), "kind": kind, "sign": sign, "names": names}
+    return head + body
